@@ -2,5 +2,5 @@
 # runs the thorough tier of every claimed property, one after the other (each check parallelises its own jobs)
 cd "$(dirname "$0")/.."
 for p in C03 C04 C13 C14 C05 C15 C06 C09 C11 C18 C20 C07 C16 C01; do
-  echo "=== $p $(date)"; VERIF_WORKERS=6 ./check.py $p --tier thorough 2>&1 | grep -a "^\[$p\]\|^VIOLATION\|^INCONCLUSIVE\|^KNOWN" | cut -c1-400
+  echo "=== $p $(date)"; VERIF_WORKERS=3 ./check.py $p --tier thorough 2>&1 | grep -a "^\[$p\]\|^VIOLATION\|^INCONCLUSIVE\|^KNOWN" | cut -c1-400
 done
